@@ -11,7 +11,7 @@ from lib import refexpr as R
 from lib import parts as P
 from lib.common import Part, Run, panic_sig
 from lib.probe import shard_map, split, worker_probe, nproc
-from lib.registry import Registry, dims_key, render_name, KEYWORDS
+from lib.registry import Registry, dims_key, render_name, num_val, KEYWORDS
 
 _REG = None
 
@@ -180,6 +180,83 @@ def judge(part, probe, reg, query, expect_val=None, tag="", base=10):
         part.count("unjudgeable:reference")
 
 
+def base_product(dims):
+    num = " ".join(("%s^%d" % (render_name(b), e) if e != 1 else render_name(b)) for b, e in sorted(dims.items()) if e > 0)
+    den = " ".join(("%s^%d" % (render_name(b), -e) if e != -1 else render_name(b)) for b, e in sorted(dims.items()) if e < 0)
+    s = num or "1"
+    return "(%s / (%s))" % (s, den) if den else "(%s)" % s
+
+
+def judge_substance(part, probe, reg, sname, rng):
+    """substance properties as displayed: `k substance` (every property scaled by k) and `<amount> substance` (the other
+    side of every property the amount conforms with), each against the registry's own numbers"""
+    sub = reg.substances[sname]
+    rs = render_name(sname)
+    amt = num_val(sub["amount"])
+    if rs is None or sname in KEYWORDS or amt.f or amt.d or amt.v != 1:
+        part.count("substance_skipped")
+        return
+    names = []
+    for pr in sub["props"].values():
+        names += [pr["input_name"], pr["output_name"]]
+    k = Fraction(rng.randrange(1, 10 ** 4), rng.choice([1, 1, 2, 3, 8, 10, 1000]))
+    jobs = [("%s %s" % (lit(k), rs) if rng.random() < 0.7 else rs, None)]
+    if jobs[0][0] == rs:
+        k = Fraction(1)
+    dimmed = [(pn, pr) for pn, pr in sub["props"].items() if pr["input"]["u"] and pr["output"]["u"]
+              and names.count(pr["input_name"]) == 1 and names.count(pr["output_name"]) == 1]
+    if dimmed:
+        pn, pr = rng.choice(dimmed)
+        side = rng.choice(["input", "output"])
+        jobs.append(("%s %s %s" % (lit(k), base_product(num_val(pr[side]).d), rs), (pn, side)))
+    for q, how in jobs:
+        part.evaluations += 1
+        r = probe.eval(q, timeout=30, spans=False, json=False)
+        if "timeout" in r or "died" in r:
+            part.inconclusive_event("no reply", {"query": q[:300]})
+            continue
+        if r.get("panics"):
+            part.violation(panic_sig(r["panics"][0]), {"query": q, "panic": r["panics"][0]}, "panic while displaying a substance")
+            continue
+        rep = r.get("r") or {}
+        if rep.get("kind") != "substance" or rep.get("name") != sub["pname"]:
+            part.count("substance_other_reply")
+            continue
+        ok = True
+        for shown in rep["properties"]:
+            want = None
+            if how is None:
+                meta = sub["props"].get(shown["name"])
+                if meta is None:
+                    continue
+                i, o = num_val(meta["input"]), num_val(meta["output"])
+                if i.f or o.f or i.v == 0:
+                    continue
+                want, wd = k * o.v / i.v, R.dmul(o.d, i.d, -1)
+            else:
+                pn, side = how
+                meta = sub["props"][pn]
+                i, o = num_val(meta["input"]), num_val(meta["output"])
+                if i.f or o.f or i.v == 0 or o.v == 0 or dims_key(i.d) == dims_key(o.d):
+                    continue
+                if side == "input" and shown["name"] == meta["output_name"]:
+                    want, wd = o.v * k / i.v, o.d
+                elif side == "output" and shown["name"] == meta["input_name"]:
+                    want, wd = i.v * k / o.v, i.d
+                else:
+                    continue
+            try:
+                problems = P.check_parts(shown["value"], reg, quantity=want, qdims=wd)
+            except (P.Unjudgeable, R.OutOfScope):
+                part.count("unjudgeable:substance")
+                continue
+            ok &= report(part, problems, {"query": q, "property": shown["name"], "reply": (r.get("text") or "")[:300]},
+                         "substance." + ("scaled" if how is None else "amount"))
+        if ok:
+            part.count("substance_ok")
+            part.seen("subst|%s|%s" % (sname, "scaled" if how is None else how[1]))
+
+
 # ------------------------------------------------------------------ workloads
 
 def work_units(idx, chunk, seed):
@@ -215,8 +292,12 @@ def work_random(idx, _chunk, seed, n):
                for k, v in reg.dim_classes().items()}
     classes = {k: v for k, v in classes.items() if len(v) >= 2 and k}
     ckeys = sorted(classes)
+    snames = sorted(reg.substances)
     for _ in range(n):
         r = rng.random()
+        if rng.random() < 0.04 and snames:
+            judge_substance(part, probe, reg, rng.choice(snames), rng)
+            continue
         if r < 0.35:
             # base-unit products around every derived-unit regrouping: dims of unit^p times a near miss
             dk, uname = rng.choice(decomp)
